@@ -394,16 +394,19 @@ def validate_all(lines, p, keys_mod, sdir, name, nchunks):
     return out
 
 
-def run(pid, tier, seed, replay):
-    t0 = time.time()
-    vh = vlib.build_harness()
-    sdir = vlib.scratch("cert-")
-    if replay:
-        return run_replay(pid, tier, seed, replay, vh, sdir, t0)
-    p = params_for(tier, seed)
-    vlib.log("[C17] tier=%s seed=%s owners=%s serials=%s (%s) maxops=%d" % (
-        tier, seed, p["owners"], p["serials"], ",".join(DEC[s] for s in p["serials"]), p["max_ops"]))
+def second_config(seed):
+    """Thorough only: three owners (C sorts before A and B: 00..01) over three serial classes."""
+    rnd = random.Random(seed * 31 + 5)
+    extra = rnd.choice(["s255", "s256", "s2e64", "s2e159"])
+    serials = [c for c in ALL_CLASSES if c in ("z0", "s1", extra)]
+    return dict(owners=["A", "B", "C"], serials=serials, bodies=2, max_ops=4, page_sizes=[0, 1, 2],
+                queries="new", n_paths=40, path_len=24, n_deliver=0, chunks=8)
 
+
+def explore(p, seed, vh, sdir, tag):
+    """J1 + J2 + J3 for one set of constants. Returns (violations, parts) -- parts feed the evidence."""
+    vlib.log("[C17] %s: owners=%s serials=%s (%s) maxops=%d" % (
+        tag, p["owners"], p["serials"], ",".join(DEC[s] for s in p["serials"]), p["max_ops"]))
     rc, txt = vlib.run([vh, "cert", "info"] + vh_args(p), timeout=300)
     if rc != 0:
         raise vlib.Inconclusive("vh cert info failed:\n" + txt[-2000:])
@@ -415,40 +418,41 @@ def run(pid, tier, seed, replay):
     pool = concurrent.futures.ThreadPoolExecutor(max_workers=3)
     f_j1 = pool.submit(vlib.tlc, SPEC_DIR, "CertMC", "j1.cfg", workers=min(6, vlib.NCPU), timeout=1500,
                        extra_files={"j1.cfg": make_cfg("MC_Cert_small.cfg", p), "CertKeys.tla": keys_mod})
-    # vacuity guard: the same properties must be able to fail -- the as-found variant of the model does
+    # vacuity guard: the same properties must be able to fail -- the as-found variants of the model do
     f_j1b = pool.submit(vlib.tlc, SPEC_DIR, "CertMC", "j1b.cfg", workers=2, timeout=600,
                         extra_files={"j1b.cfg": make_cfg("MC_Cert_d4.cfg", p, max_ops=2), "CertKeys.tla": keys_mod})
     f_j1c = pool.submit(vlib.tlc, SPEC_DIR, "CertMC", "j1c.cfg", workers=2, timeout=600,
                         extra_files={"j1c.cfg": make_cfg("MC_Cert_asfound.cfg", p, max_ops=4), "CertKeys.tla": keys_mod})
 
     # ---- J2
-    edges_path = os.path.join(sdir, "edges.ndjson")
-    n_edges, j2 = export_edges(p, keys_mod, keyorder, edges_path)
+    def f(name):
+        return os.path.join(sdir, tag + "-" + name)
+
+    n_edges, j2 = export_edges(p, keys_mod, keyorder, f("edges.ndjson"))
     vlib.log("[C17] J2: %d edges over %d registry states exported in %.1fs" % (n_edges, j2.distinct, j2.wall_s))
-    trace_path = os.path.join(sdir, "graph.ndjson")
-    paths_path = os.path.join(sdir, "paths.json")
-    gstats = run_harness(vh, "graph", p, edges_path, trace_path,
-                         ["--queries", p["queries"], "--pathsout", paths_path])
+    gstats = run_harness(vh, "graph", p, f("edges.ndjson"), f("graph.ndjson"),
+                         ["--queries", p["queries"], "--pathsout", f("paths.json")])
     vlib.log("[C17] J2 graph walk on the real app: %s" % json.dumps(gstats, sort_keys=True))
     if gstats.get("steps", 0) + gstats.get("unreached_edges", 0) != n_edges:
         raise vlib.Inconclusive("graph walk executed %s of %d edges" % (gstats, n_edges))
+    if gstats.get("representative_mismatch"):
+        raise vlib.Inconclusive("graph walk: %d states reached with differing store bytes" % gstats["representative_mismatch"])
     scripts = random_scripts(p, seed, p["n_paths"], p["path_len"])
-    scripts_path = os.path.join(sdir, "scripts.ndjson")
-    with open(scripts_path, "w") as fh:
+    with open(f("scripts.ndjson"), "w") as fh:
         for sc in scripts:
             fh.write(json.dumps(sc) + "\n")
-    ptrace_path = os.path.join(sdir, "paths.ndjson")
-    pstats = run_harness(vh, "paths", p, scripts_path, ptrace_path)
+    pstats = run_harness(vh, "paths", p, f("scripts.ndjson"), f("scripttrace.ndjson"))
     vlib.log("[C17] J2 scripts on the real app: %s" % json.dumps(pstats, sort_keys=True))
     # the same kind of scripts as signed transactions through ante handler, blocks and commits; queries over ABCI
-    dscripts = random_scripts(p, seed + 1000003, p["n_deliver"], p["path_len"])
-    dscripts_path = os.path.join(sdir, "dscripts.ndjson")
-    with open(dscripts_path, "w") as fh:
-        for sc in dscripts:
-            fh.write(json.dumps(sc) + "\n")
-    dtrace_path = os.path.join(sdir, "deliver.ndjson")
-    dstats = run_harness(vh, "deliver", p, dscripts_path, dtrace_path)
-    vlib.log("[C17] J2 signed transactions in blocks on the real app: %s" % json.dumps(dstats, sort_keys=True))
+    dstats, dlines = {}, []
+    if p["n_deliver"]:
+        dscripts = random_scripts(p, seed + 1000003, p["n_deliver"], p["path_len"])
+        with open(f("dscripts.ndjson"), "w") as fh:
+            for sc in dscripts:
+                fh.write(json.dumps(sc) + "\n")
+        dstats = run_harness(vh, "deliver", p, f("dscripts.ndjson"), f("deliver.ndjson"))
+        vlib.log("[C17] J2 signed transactions in blocks on the real app: %s" % json.dumps(dstats, sort_keys=True))
+        dlines = open(f("deliver.ndjson")).readlines()
 
     j1, j1b, j1c = f_j1.result(), f_j1b.result(), f_j1c.result()
     pool.shutdown()
@@ -459,15 +463,18 @@ def run(pid, tier, seed, replay):
                                 "violate Prop_Queries (%r, %r)" % (j1b, j1c))
 
     # ---- J3
-    glines = open(trace_path).readlines()
-    plines = open(ptrace_path).readlines()
-    dlines = open(dtrace_path).readlines()
-    paths = json.load(open(paths_path))
+    glines = open(f("graph.ndjson")).readlines()
+    plines = open(f("scripttrace.ndjson")).readlines()
+    paths = json.load(open(f("paths.json")))
     t3 = time.time()
-    results = [("graph", s, c, j) for s, c, j in validate_all(glines, p, keys_mod, sdir, "graph", p["chunks"])]
-    results += [("paths", s, c, j) for s, c, j in validate_all(plines, p, keys_mod, sdir, "paths", max(2, p["chunks"] // 3))]
-    results += [("deliver", s, c, j) for s, c, j in validate_all(dlines, p, keys_mod, sdir, "deliver", max(2, p["chunks"] // 4))]
-    vlib.log("[C17] J3: %d lines validated by TLC in %.1fs" % (len(glines) + len(plines) + len(dlines), time.time() - t3))
+    results = [("graph", s, c, j) for s, c, j in validate_all(glines, p, keys_mod, sdir, tag + "-graph", p["chunks"])]
+    results += [("paths", s, c, j) for s, c, j in
+                validate_all(plines, p, keys_mod, sdir, tag + "-paths", max(2, p["chunks"] // 3))]
+    if dlines:
+        results += [("deliver", s, c, j) for s, c, j in
+                    validate_all(dlines, p, keys_mod, sdir, tag + "-deliver", max(2, p["chunks"] // 4))]
+    nlines = len(glines) + len(plines) + len(dlines)
+    vlib.log("[C17] J3: %d lines validated by TLC in %.1fs" % (nlines, time.time() - t3))
     violations, drift, n_ct = [], 0, 0
     ct_seen = set()
     for origin, start, chunk, j in results:
@@ -503,39 +510,76 @@ def run(pid, tier, seed, replay):
     for sid in list(paths.keys())[-2:]:
         samples.append({"graph_state": sid, "reached_by": paths[sid]})
     samples.append({"script": scripts[0][:8]})
-    coverage = {
+    parts = {
         "states": j1.distinct, "transitions": j1.generated,
-        "traces_validated_against_impl": gstats.get("segments", 0) + 1 + pstats.get("segments", 0) + dstats.get("segments", 0),
+        "traces": gstats.get("segments", 0) + 1 + pstats.get("segments", 0) + dstats.get("segments", 0),
         "evaluations": gstats.get("steps", 0) + pstats.get("steps", 0) + dstats.get("steps", 0),
-        "query_results_judged": nq,
-        "count_total_listings_incomplete": n_ct,
-        "distinct_nontrivial": len(accepted_pairs) + len(judged_states),
-        "rule": "graph walk: every edge (registry state, transaction) of TLC's bounded transaction graph executed once on the "
-                "real app from a stored representative of its source state; scripts: seeded random transaction sequences "
-                "from the empty registry, once through the emulated runTx and once (other scripts) as signed transactions "
-                "delivered in blocks with commits and ABCI queries. distinct_nontrivial = distinct (source registry, accepted transaction) pairs "
-                "+ distinct non-empty registries on which all queries (filters x page sizes, iterators, lookups) were judged",
-        "samples": samples, "exhaustive": True, "drift_steps": drift, "binding_selftest": st,
-        "configs": {"owners": p["owners"], "serials": {s: DEC[s] for s in p["serials"]}, "max_ops": p["max_ops"],
-                    "page_sizes": p["page_sizes"], "bodies": p["bodies"], "keyorder": ["%s/%s" % k for k in keyorder]},
+        "nq": nq, "n_ct": n_ct, "distinct": len(accepted_pairs) + len(judged_states), "samples": samples,
+        "drift": drift, "selftest": st, "lines": nlines,
+        "config": {"owners": p["owners"], "serials": {s: DEC[s] for s in p["serials"]}, "max_ops": p["max_ops"],
+                   "page_sizes": p["page_sizes"], "page_modes": ["key", "total", "offset"], "bodies": p["bodies"],
+                   "keyorder": ["%s/%s" % k for k in keyorder]},
         "j1": {"distinct": j1.distinct, "generated": j1.generated, "depth": j1.depth, "wall_s": round(j1.wall_s, 1),
                "d4_variant_violates": j1b.violated, "asfound_variant_violates": j1c.violated},
         "j2": {"edges": n_edges, "graph": gstats, "scripts": pstats, "signed_tx_scripts": dstats},
-        "trace_lines": len(glines) + len(plines) + len(dlines),
+    }
+    return violations, parts
+
+
+def run(pid, tier, seed, replay):
+    t0 = time.time()
+    vh = vlib.build_harness()
+    sdir = vlib.scratch("cert-")
+    if replay:
+        return run_replay(pid, tier, seed, replay, vh, sdir, t0)
+    vlib.log("[C17] tier=%s seed=%s" % (tier, seed))
+    configs = [("main", params_for(tier, seed))]
+    if tier == "thorough":
+        configs.append(("owners3", second_config(seed)))
+    violations, allparts = [], []
+    for tag, p in configs:
+        v, parts = explore(p, seed, vh, sdir, tag)
+        violations += v
+        allparts.append((tag, parts))
+    # one representative per signature
+    seen, uniq = set(), []
+    for v in violations:
+        if v.signature not in seen:
+            seen.add(v.signature)
+            uniq.append(v)
+    main = allparts[0][1]
+    coverage = {
+        "states": sum(x["states"] for _, x in allparts), "transitions": sum(x["transitions"] for _, x in allparts),
+        "traces_validated_against_impl": sum(x["traces"] for _, x in allparts),
+        "evaluations": sum(x["evaluations"] for _, x in allparts),
+        "query_results_judged": sum(x["nq"] for _, x in allparts),
+        "count_total_listings_incomplete": sum(x["n_ct"] for _, x in allparts),
+        "distinct_nontrivial": sum(x["distinct"] for _, x in allparts),
+        "rule": "graph walk: every edge (registry state, transaction) of TLC's bounded transaction graph executed once on the "
+                "real app from a stored representative of its source state; scripts: seeded random transaction sequences "
+                "from the empty registry, once through the emulated runTx and once (other scripts) as signed transactions "
+                "delivered in blocks with commits and ABCI queries. distinct_nontrivial = distinct (source registry, "
+                "accepted transaction) pairs + distinct non-empty registries on which all queries (filters x page sizes x "
+                "paging styles, iterators, lookups) were judged",
+        "samples": main["samples"], "exhaustive": True, "drift_steps": sum(x["drift"] for _, x in allparts),
+        "binding_selftest": main["selftest"],
+        "configs": {tag: x["config"] for tag, x in allparts},
+        "j1": {tag: x["j1"] for tag, x in allparts},
+        "j2": {tag: x["j2"] for tag, x in allparts},
+        "trace_lines": sum(x["lines"] for _, x in allparts),
     }
     assumptions = [
-        "graph walk and plain scripts: a transaction is emulated as baseapp.runTx minus fees: GetSigners() must be exactly the signing account, "
-        "ValidateBasic, then the handler the app registered in its MsgServiceRouter on a CacheContext branch; the "
-        "signed-transaction scripts go through the real ante handler, DeliverTx, Commit and ABCI Query instead",
-        "in the graph walk one concrete store (an unwritten CacheContext branch) represents each abstract registry; the "
-        "harness checks that every other way of reaching it yields byte-identical store contents",
+        "graph walk and plain scripts: a transaction is emulated as baseapp.runTx minus fees: GetSigners() must be exactly "
+        "the signing account, ValidateBasic, then the handler the app registered in its MsgServiceRouter on a CacheContext "
+        "branch; the signed-transaction scripts go through the real ante handler, DeliverTx, Commit and ABCI Query instead",
+        "in the graph walk one concrete store (a CacheContext branch rebuilt from its script) represents each abstract "
+        "registry; the harness checks that every other way of reaching it yields byte-identical store contents",
         "the projected registry is read from the raw store values (x509 body -> owner CN, serial), not through the keeper",
         "pagination: the union of the pages obtained by following next_key (DESIGN 5.1), also with count_total set, and "
         "by stepping the offset",
+        "entries a listing returns beyond those its filter matches are drift, not a violation",
     ]
-    if gstats.get("representative_mismatch"):
-        raise vlib.Inconclusive("graph walk: %d states reached with differing store bytes" % gstats["representative_mismatch"])
-    return vlib.finish(pid, tier, seed, "model_checking", coverage, t0, violations, assumptions)
+    return vlib.finish(pid, tier, seed, "model_checking", coverage, t0, uniq, assumptions)
 
 
 def run_replay(pid, tier, seed, replay, vh, sdir, t0):
